@@ -84,6 +84,17 @@ struct Driver {
             bool delivered = false;
             for (int i = 0; i < 300 && sent; ++i) { if ((from_a ? got_b.load() : got_a.load()) > before) { delivered = true; break; } usleep(1000); }
             ev::Ev e("send"); e.s("from", c.s("from")).b("sent", sent).b("delivered", delivered); fin(e);
+        } else if (c.op == "rehs") {
+            // the end `from` handshakes again and reconnects over the still-open connection (what Node::request_chunk does before a fetch):
+            // the other end's handshake handler re-derives and registers the handshake key as well
+            Node& x = c.s("from") == "a" ? *a : *b;
+            Node& y = c.s("from") == "a" ? *b : *a;
+            auto w = Acc::work(y, x.id());
+            bool hs = x.perform_handshake(y.id(), y.public_identity(), w.value_or(0));
+            bool con = hs && x.connect_peer(y.id(), "127.0.0.1", y.transport_port());
+            for (int i = 0; i < 300; ++i) { if (Acc::sessions(y).is_connected(x.id()) && Acc::sessions(x).is_connected(y.id())) break; usleep(1000); }
+            usleep(3000);
+            ev::Ev e("rehs"); e.s("from", c.s("from")).b("hs", hs).b("con", con); fin(e);
         } else if (c.op == "intrude") {
             // somebody else offers node n a handshake under the PEER's id: a valid but different public value and work that does not
             // verify.  It is refused (C20); the key of the open session must stay what both ends agreed on
